@@ -202,7 +202,10 @@ def main():
         if pid in srcref.PROPS:
             # translator tie (reg_access.py -> PyLite -> refinement proofs); when it is not available the tie
             # rests on the correspondence alone, searched with the escalated budget
-            srcref_res = srcref.check(pid)
+            try:
+                srcref_res = srcref.check(pid)
+            except Exception as e:  # noqa: BLE001  the translator tie is optional: its failure only escalates the search
+                srcref_res = [{"module": "?", "status": "unavailable", "detail": f"{type(e).__name__}: {e}"[:300]}]
             escalate = escalate or not srcref.all_proved(srcref_res)
         res = propdefs.run_property(pid, a.tier, seed, escalate=escalate)
 
@@ -304,4 +307,16 @@ def main():
 
 
 if __name__ == "__main__":
-    sys.exit(main())
+    try:
+        sys.exit(main())
+    except SystemExit:
+        raise
+    except BaseException:  # noqa: BLE001  the interface is kept even when the machinery itself fails
+        import traceback
+        tb = traceback.format_exc()
+        print(tb[-1500:])
+        pid_ = next((x for x in sys.argv[1:] if re.fullmatch(r"C\d\d", x)), "C00")
+        path_ = write_replay(pid_, int(os.environ.get("VERIF_SEED", "0")), 0,
+                             {"property": pid_, "kind": "harness", "reason": "the check itself failed", "traceback": tb[-3000:]})
+        print(f"VIOLATION property={pid_} replay={path_} no-failing-input-found")
+        sys.exit(1)
